@@ -12,7 +12,16 @@ import (
 	"golang.org/x/tools/go/ssa/ssautil"
 )
 
-const RepoDir = "/repo"
+// RepoDir is the repository under test: /repo for every registered check. SYMGO_REPO points the same checks at a
+// scratch worktree (used only by /verif/tools/mutest.sh to try seeded changes without touching /repo).
+var RepoDir = repoDir()
+
+func repoDir() string {
+	if d := os.Getenv("SYMGO_REPO"); d != "" {
+		return d
+	}
+	return "/repo"
+}
 
 var HarnessDir = "/verif/harness"
 
